@@ -260,6 +260,13 @@ class SimPeripherals:
         builtins.input = self._stdin_readline
         try:
             return getattr(self._real, name)(*args)
+        except AttributeError as e:
+            if getattr(e, 'obj', None) is self._real:
+                # the device layer recognises "operation not implemented" by
+                # e.obj being the peripherals object it was given: that is
+                # this proxy, not the wrapped real object
+                raise AttributeError(str(e), name=getattr(e, 'name', None), obj=self)
+            raise
         finally:
             builtins.input = saved
 
